@@ -46,6 +46,7 @@ def run_property(prop, tier, seed, configs=None, repo=None, selftest=True):
             "bodies": {c: prog.raw[c]["n_bodies"] for c in prog.raw},
             "calls": sum(len(f.calls) for f in prog.fns.values()),
             "helpers_analysed_inside_their_callers": ["%s -> %s" % (h, c) for h, c in getattr(prog, "inlined", [])],
+            "renames_recognised": ["%s = %s" % (n, o) for n, o in getattr(prog, "renamed", [])],
         }
         if os.environ.get("RPX_FACTS_EPHEMERAL"):
             import shutil
